@@ -156,6 +156,22 @@ def specStep (p0 : List (Nat × Nat)) (g : Ghost) (e : Ev) (o : Obs) : Ghost × 
 
 def handle (args impl : List String) : String :=
   match args with
+  | ["e2e", typ, scn, want, outcome] =>
+    -- end-to-end order against the mock ACME server: the model's prediction is the theorems'
+    -- conclusion "nothing left" (C16_memory_gone, C16_tokens_gone, C16_records_gone,
+    -- C16_last_closes); the spec judges leftovers and, against a conforming server, success
+    let spec := match impl with
+      | [ns, na, nt, nr, nm, lis] =>
+        if want = "ok" && outcome ≠ "issued" then "bad:issuance-failed-against-conforming-server"
+        else if ns ≠ "0" then "bad:solvers-entry-left"
+        else if na ≠ "0" then "bad:challenge-memory-left"
+        else if nt ≠ "0" then "bad:token-file-left"
+        else if nr ≠ "0" then "bad:dns-record-left"
+        else if nm ≠ "0" then "bad:record-memory-left"
+        else if lis ≠ "0" then "bad:listener-still-accepting"
+        else "ok"
+      | _ => "-"
+    reply "0 0 0 0 0 0" spec (typ ++ ":" ++ scn ++ ":" ++ outcome)
   | "trace" :: p0 :: evs =>
     match decPairs p0, allSome (evs.map decEv) with
     | some p0, some evs =>
